@@ -80,6 +80,14 @@ def scenario(draw, tier="quick"):
             rc["trd_same"] = [mid + draw(st.integers(-3, 3))]
         elif c == 1:
             rc["atb"] = atb[: draw(st.integers(0, len(atb)))]
+        elif c == 2 and steps[-1].get("k") == "book":
+            # the market suspends (same version: resting orders survive), one or two SUSPENDED updates, re-opens:
+            # nothing trades meanwhile, so nothing may be filled
+            steps.append({"dt": draw(st.sampled_from([50, 1000])), "k": "suspend", "bump": False})
+            for _ in range(draw(st.integers(0, 2))):
+                steps.append({"dt": 200, "k": "book", "rc": []})
+            steps.append({"dt": 1000, "k": "open", "bump": False})
+            continue
         else:
             trd = []
             for _ in range(draw(st.integers(1, 3))):
@@ -105,6 +113,10 @@ def check(sc):
     if lb.error is not None:
         raise crash_violation(lb.error, sc, "run-aborted")
     ups = lb.renderers[0].updates
+    if any(u.status != "OPEN" and any(u.traded_delta[0].values()) for u in ups):
+        # outside the generator's domain (reachable only by minimisation dropping the re-opening step): the
+        # exchange does not report trades on a suspended market
+        return False, {"not-judged:trades-while-suspended"}
     iso = sc["config"]["simulated_strategy_isolation"]
     pt2idx = {u.pt: u.idx for u in ups}
     epoch = __import__("datetime").datetime(1970, 1, 1)
@@ -121,6 +133,8 @@ def check(sc):
     classes = {"isolation-on" if iso else "isolation-off", "strategies:%d" % len(sc["strategies"])}
     if sc.get("listener_kwargs"):
         classes.add("inplay-only-listener")
+    if any(u.status == "SUSPENDED" and u.idx > 1 for u in ups) and not sc.get("listener_kwargs"):
+        classes.add("suspension-with-resting-orders")
     orders = []
     for oid, h in hist.items():
         us = sorted(h)
@@ -128,6 +142,8 @@ def check(sc):
         if ack is None:
             continue
         o = h[ack]
+        if "EXECUTABLE" not in h[us[-1]]["status_log"] and not h[us[-1]]["matched"]:
+            continue  # the placement was rejected (e.g. it reached the exchange while the market was suspended)
         # arrival (crossing) fragments are stamped with the previous update's time
         arrival = [m for m in o["matched"] if m[0] == ups[ack - 1].pt]
         arrival_sz = round(sum(m[2] for m in arrival), 2)
